@@ -84,18 +84,11 @@ fn fail(vm: &mut Vm<Aux>) -> NR {
 }
 fn pair(vm: &mut Vm<Aux>, a: Value, b: Value) -> NR {
     vm.auxiliary_data.native_calls += 1;
-    // keep the arguments reachable while allocating (they were popped by the wrapper)
-    vm.stack_push(a)?;
-    vm.stack_push(b)?;
-    let r = (|| {
-        let mut t = vm.init_table()?;
-        t.as_table_mut().unwrap().insert(Value::Integer(0), a)?;
-        t.as_table_mut().unwrap().insert(Value::Integer(1), b)?;
-        Ok(Value::Object(t.into_inner()))
-    })();
-    vm.stack_pop();
-    vm.stack_pop();
-    r
+    // written the way a host would: the new table is guarded, the arguments are just used
+    let mut t = vm.init_table()?;
+    t.as_table_mut().unwrap().insert(Value::Integer(0), a)?;
+    t.as_table_mut().unwrap().insert(Value::Integer(1), b)?;
+    Ok(Value::Object(t.into_inner()))
 }
 fn concat(vm: &mut Vm<Aux>, a: Value, b: Value) -> NR {
     vm.auxiliary_data.native_calls += 1;
